@@ -48,7 +48,8 @@ Definition make_empty_flows (procs : list (nat * nat)) (dims : dimset)
 (* ---- stocks ---- *)
 Record stockdef := mk_stockdef {
   sd_name : nat; sd_process : option nat; sd_dims : list letter; sd_time : letter;
-  sd_class : nat;            (* 0 = SimpleFlowDrivenStock, 1 = InflowDrivenDSM, 2 = StockDrivenDSM *)
+  sd_class : nat;            (* 0 = SimpleFlowDrivenStock, 1 = InflowDrivenDSM, 2 = StockDrivenDSM,
+                                3 = a user's subclass of StockDrivenDSM, 4 = a user's lifetime-based class with a solver field of its own *)
   sd_lifetime : option nat;  (* lifetime model class *)
   sd_solver : nat            (* 0 = manual, 1 = lapack, other = invalid *)
 }.
@@ -57,6 +58,8 @@ Record stockobj := mk_stockobj {
   so_class : nat; so_lifetime : option nat; so_solver : option nat }.
 
 Definition needs_lifetime (cls : nat) : bool := negb (Nat.eqb cls 0).
+(* the classes that have a solver setting: the definition's solver goes to every class that has the field *)
+Definition has_solver (cls : nat) : bool := Nat.leb 2 cls.
 
 (* StockDefinition validators *)
 Definition stockdef_ok (sd : stockdef) : bool :=
@@ -76,7 +79,7 @@ Definition stock_of (forwards_solver : bool) (procs : list (nat * nat)) (dims : 
   | l0 :: _ =>
       if Nat.eqb l0 (sd_time sd)
       then Ok (mk_stockobj (sd_name sd) (sd_process sd) ds' (sd_time sd) (sd_class sd) (sd_lifetime sd)
-                 (if Nat.eqb (sd_class sd) 2 then Some (if forwards_solver then sd_solver sd else 0) else None))
+                 (if has_solver (sd_class sd) then Some (if forwards_solver then sd_solver sd else 0) else None))
       else Err
   | [] => Err
   end.
